@@ -253,14 +253,19 @@ def bufs_monitor(case, line):
 # (ii) routes
 # ----------------------------------------------------------------------------
 FILES = ["a.txt", "b.txt", "e.txt", "ro.txt", "d1/x", "d1/y"]
-DIRS = ["d1", "d2", "d1/sub", "."]
+DIRS = ["d1", "d2", "d1/sub", ".", "odd", "odd"]
+ODD = ["odd/+@x2e2e2e", "odd/+@x2e2e2e2e", "odd/+@x2e2e2e2e2e", "odd/..a", "odd/.a", "odd/a.", "odd/+@x20", "odd/a+@x20+b",
+       "odd/new+@x0a+line", "odd/+@xc3a974c3a9", "odd/+@xfffe", "odd/Case", "odd/case", "odd/-rf", "odd/--", "odd/+@n255"]
 LINKS = ["ln", "dang", "lnd"]
 MISSING = ["nope", "d1/nope", "nope/x", "a.txt/x"]
 NEW = ["n1", "n2", "d2/n3", "d1/n4"]
 
 
+ODDHEX = ["2e2e2e", "2e2e2e2e", "2e2e61", "2e", "2e2e", "20", "0a", "ff", "2d2d", "c3a9", "412e", "2e2e2e2e2e2e", "612062"]
+
+
 def any_path(rng):
-    return rng.choice(rng.choice([FILES, FILES, DIRS, LINKS, MISSING, NEW]))
+    return rng.choice(rng.choice([FILES, FILES, DIRS, LINKS, MISSING, NEW, ODD]))
 
 
 def small_lens(rng):
@@ -326,6 +331,9 @@ def gen_op(rng):
         (1, lambda: "rename %s %s" % tuple(rng.sample(["@p4095:a.txt", "@p4096:a.txt", "@p4095:n1", "b.txt", "@n255", "@n256"], 2))),
         (1, lambda: "%s @n%d+XXXXXX" % (rng.choice(["mkdtemp", "mkstemp s2"]), rng.choice([248, 249, 250]))),
         (1, lambda: "open s2 d2/+@n%d 66 644" % rng.choice([254, 255, 256])),
+        (1, lambda: "mkdir %s/+@x%s 755" % (rng.choice(["d2", "odd", "d1"]), rng.choice(ODDHEX))),
+        (1, lambda: "open s2 %s/+@x%s 66 644" % (rng.choice(["d2", "odd", "d1"]), rng.choice(ODDHEX))),
+        (1, lambda: "symlink a.txt %s/+@x%s" % (rng.choice(["d2", "odd", "d1"]), rng.choice(ODDHEX))),
         (1, lambda: "cancel %s" % rng.choice(["stat", "read", "write", "rename", "scandir", "mkdtemp", "readlink"])),
     ]
     tot = sum(w for w, _ in kinds)
@@ -649,6 +657,7 @@ def main():
         hroutes = vf.cc_harness(chk.scratch, "c11_routes", ["c11_routes.c"], lib=lib, wraps=["syscall", "readlink"])
         hpool = vf.cc_harness(chk.scratch, "c11_pool", ["c11_pool.c"], lib=lib)
         hsq = vf.cc_harness(chk.scratch, "c11_sqring", ["c11_sqring.c"], lib=lib)
+        hfilter = vf.cc_harness(chk.scratch, "c11_filter", ["c11_filter.c"], lib=lib)
         liba = vf.build_libuv(chk.scratch, "asan")
         hroutes_a = vf.cc_harness(chk.scratch, "c11_routes_asan", ["c11_routes.c"], lib=liba,
                                   flavour="asan", wraps=["syscall", "readlink"])
@@ -797,6 +806,27 @@ def main():
         chk.cov["sqring_cases"] = len(scs)
         chk.cov["sqring_submissions"] = sum(l.count("g") + l.count("f ") for l in so)
         chk.cov["sqring_fallbacks"] = sum(l.count("f ") for l in so)
+
+    # ---- (vii) the scandir filter called directly ----
+    if not replay_case or replay_case[0].startswith("filter"):
+        import itertools
+        fcs = ["-"] + ["".join(t) for k in range(1, 6) for t in itertools.product(["2e", "61", "20", "ff"], repeat=k)]
+        fcs += ["2e" * k for k in (6, 7, 100, 254, 255)] + ["2e" * 3 + "00"]
+        fcs += ["".join(chk.rng.choice(["2e", "2e", "2f", "41", "0a", "c3", "a9", "2d"]) for _ in range(chk.rng.randint(1, 12)))
+                for _ in range(200)]
+        if replay_case:
+            fcs = [replay_case[1]]
+        fo, _, _ = run_robust([hfilter], fcs, shards=2)
+        fm, _, _ = vf.run_lines([model, "filter"], fcs, shards=2)
+
+        def filter_monitor(c, a):
+            name = b"" if c == "-" else bytes.fromhex(c).split(b"\0")[0]
+            want = "0" if name in (b".", b"..") else "1"
+            if a.strip() != want:
+                return "uv_fs_scandir %s the entry named %r" % ("drops" if want == "1" else "reports", name)
+            return None
+        vf.diff_cases(chk, "filter: uv__fs_scandir_filter = Model/Fs.v scandir_keeps", fcs, fo, fm, filter_monitor)
+        chk.cov["scandir_filter_names"] = len(fcs)
 
     # ---- (iv) pool sizes ----
     pcs = read_corpus("pool.txt") + pool_cases(chk.rng, 300 if thorough else 40)
